@@ -36,7 +36,8 @@ import (
 // dataset, "burst" marks that all following entries are queued BEFORE the apply goroutine is released
 // (what a restart replays).  Entries proposed by OTHER nodes arrive through the same log: "fcreate:N" = a
 // dataset whose single partition is hosted on node N only, "pnode-N" / "pnode+N" = node N is removed from /
-// added to the replica set of the last such partition (what a partition leader's allocator proposes when it
+// added to the replica set of the last such partition; "rcreate:R:n1,n2" = a dataset with replication factor R whose
+// partition has the replicas n1,n2 (a replayed catalogue: the peers are announced afterwards) (what a partition leader's allocator proposes when it
 // hears that a node left, or finds the partition under-replicated).
 type Scenario struct {
 	Name  string   `json:"name"`
@@ -172,6 +173,30 @@ func stallSignature() string {
 	return strings.Join(sigs, " & ")
 }
 
+// waitingProposers: goroutines that wait inside DatasetManager for the outcome of a proposed catalogue change
+func waitingProposers() int {
+	buf := make([]byte, 1<<20)
+	n := runtime.Stack(buf, true)
+	c := 0
+	for _, g := range strings.Split(string(buf[:n]), "\n\n") {
+		lines := strings.Split(g, "\n")
+		if len(lines) < 3 || !strings.HasPrefix(lines[0], "goroutine ") || !(strings.Contains(lines[0], "select") || strings.Contains(lines[0], "chan receive")) {
+			continue
+		}
+		// innermost frame that is not the runtime's: the select in propose...AndWaitForCommit
+		for _, l := range lines[1:] {
+			if strings.HasPrefix(l, "\t") || strings.HasPrefix(l, "runtime.") {
+				continue
+			}
+			if strings.Contains(l, "anndb/storage.(*DatasetManager).") && strings.Contains(l, "AndWaitForCommit") {
+				c++
+			}
+			break
+		}
+	}
+	return c
+}
+
 func main() {
 	f, _ := os.Create(os.Args[1])
 	defer f.Close()
@@ -248,6 +273,24 @@ func main() {
 				Partitions: []*pb.Partition{{Id: fpart.Bytes(), NodeIds: []uint64{n}}}})
 			pd, _ := proto.Marshal(&pb.DatasetManagerChange{Type: pb.DatasetManagerChangeType_DatasetManagerCreateDataset, NotificationId: uuid.NewV4().Bytes(), Data: dd})
 			g.push(entry{data: pd})
+		case strings.HasPrefix(st, "rcreate:"):
+			// what a restart replays: a dataset of the catalogue with replication factor R whose partition already
+			// has the listed replicas - the peers are announced to the fresh cluster.Conn only afterwards
+			parts := strings.Split(st, ":")
+			var r uint32
+			fmt.Sscanf(parts[1], "%d", &r)
+			var ns []uint64
+			for _, x := range strings.Split(parts[2], ",") {
+				var n uint64
+				fmt.Sscanf(x, "%d", &n)
+				ns = append(ns, n)
+			}
+			nsteps++
+			fds, fpart = uuid.NewV4(), uuid.NewV4()
+			dd, _ := proto.Marshal(&pb.Dataset{Id: fds.Bytes(), Dimension: 2, Space: pb.Space_Euclidean, PartitionCount: 1, ReplicationFactor: r,
+				Partitions: []*pb.Partition{{Id: fpart.Bytes(), NodeIds: ns}}})
+			pd, _ := proto.Marshal(&pb.DatasetManagerChange{Type: pb.DatasetManagerChangeType_DatasetManagerCreateDataset, NotificationId: uuid.NewV4().Bytes(), Data: dd})
+			g.push(entry{data: pd})
 		case strings.HasPrefix(st, "pnode"):
 			var n uint64
 			fmt.Sscanf(st[6:], "%d", &n)
@@ -321,12 +364,37 @@ func main() {
 			stalled = stallSignature()
 		}
 	}
+	// a proposer of a catalogue change is answered once its entry has been applied: with the log drained and nothing
+	// being applied any more, nobody still waits in DatasetManager for the outcome of a proposal (the allocator's
+	// node-change worker proposes with a context that ends at shutdown only: an entry applied without its
+	// notification blocks it, and every later membership change, for good).  Waiting inside a PARTITION's raft group
+	// (no leader: its other replicas do not exist here) is something else and not judged.
+	stale := 0
+	if stalled == "" && serving == 1 {
+		last, since := -1, time.Now()
+		for dl := time.Now().Add(6 * time.Second); time.Now().Before(dl); time.Sleep(50 * time.Millisecond) {
+			g.mu.Lock()
+			a, pend := g.applied, len(g.queue)
+			g.mu.Unlock()
+			if a != last || pend != 0 {
+				last, since = a, time.Now()
+				continue
+			}
+			if waitingProposers() == 0 {
+				break
+			}
+			if time.Since(since) > 3*time.Second {
+				stale = 1
+				break
+			}
+		}
+	}
 	st := 0
 	if stalled != "" {
 		st = 1
 	}
 	enc.Encode(map[string]interface{}{"ev": "ctrl", "name": sc.Name, "steps": sc.Steps, "entries": nsteps, "applied": g.applied,
-		"pending": g.pending(), "stalled": st, "signature": stalled, "serving": serving})
+		"pending": g.pending(), "stalled": st, "signature": stalled, "serving": serving, "stale": stale})
 	f.Sync()
 	os.Exit(0)
 }
